@@ -504,6 +504,39 @@ pub fn run(ctx: &mut Ctx) {
     });
     ctx.mark_exhaustive("integer conversions and SignatureScheme split for all values of the 8 types that define them");
 
+    // ------------------------------------------------ the Debug text of the extension variants that print code points
+    // (signature_algorithms, supported_groups, supported_versions): for every 16-bit value the printed element
+    // carries the registered name when one exists and otherwise the numeric fallbacks of its parts
+    ctx.floor("extdebug.values", 65536);
+    ctx.sweep("extension-debug-code-points", 256, |ctx, idx| {
+        for lo in 0..=255u32 {
+            let v = ((idx as u32) << 8 | lo) as u16;
+            let (hi8, lo8) = ((v >> 8) as u8, v as u8);
+            let got = ctx.guarded("Debug of TlsExtension", &v.to_be_bytes(), || {
+                (format!("{:?}", TlsExtension::SignatureAlgorithms(vec![v])), format!("{:?}", TlsExtension::EllipticCurves(vec![NamedGroup(v)])), format!("{:?}", TlsExtension::SupportedVersions(vec![TlsVersion(v)])))
+            });
+            if let Some((sa, ec, sv)) = got {
+                ctx.evals(3);
+                ctx.count("extdebug.values");
+                let scheme = format!("{}", SignatureScheme(v));
+                let want: Vec<String> = if scheme.starts_with("SignatureScheme") { vec![format!("{}", HashAlgorithm(hi8)), format!("{}", SignAlgorithm(lo8))] } else { vec![scheme] };
+                if !want.iter().all(|w| sa.contains(w.as_str())) {
+                    ctx.violation("c17:extension-debug:signature_algorithms".into(), json!({"value": format!("0x{:04x}", v), "text": clip(&sa), "must_contain": want}));
+                }
+                let g = format!("{:?}", NamedGroup(v));
+                if !ec.contains(g.as_str()) {
+                    ctx.violation("c17:extension-debug:supported_groups".into(), json!({"value": format!("0x{:04x}", v), "text": clip(&ec), "must_contain": g}));
+                }
+                let t = format!("{}", TlsVersion(v));
+                let t2 = format!("{:?}", TlsVersion(v));
+                if !(sv.contains(t.as_str()) || sv.contains(t2.as_str())) {
+                    ctx.violation("c17:extension-debug:supported_versions".into(), json!({"value": format!("0x{:04x}", v), "text": clip(&sv), "must_contain_one_of": [t, t2]}));
+                }
+            }
+        }
+        ctx.shape(&("extdebug", idx / 16));
+    });
+
     // ------------------------------------------------ formatter state: Display / LowerHex of the integer-like types under
     // width, fill, alignment, sign, zero-padding, alternate form and precision. Whatever padding the impl
     // chooses to honour, the digits must still be the raw value (strip padding / sign / 0x, parse back).
